@@ -733,6 +733,20 @@ impl TypeCheckVisitor<'_> {
         let scrutinee_ty = self.infer_expr(scrutinee, type_bindings, expected_return_ty);
         let scrutinee_ty_name = scrutinee_ty.type_name();
 
+        if matches!(scrutinee_ty, Type::Tuple(_)) {
+            self.diagnostics.push(Diagnostic {
+                notes: vec![],
+                fixes: vec![],
+                severity: Severity::Error,
+                message: ErrorMessage(vec![
+                    msgtext!("Expected an enum value, but got "),
+                    msgcode!("{}", scrutinee_ty),
+                    msgtext!("."),
+                ]),
+                position: scrutinee.position.clone(),
+            });
+        }
+
         if let Some(scrutinee_ty_name) = &scrutinee_ty_name {
             check_match_exhaustive(
                 self.env,
